@@ -1,4 +1,5 @@
 import XC.Model.C25_Inst
+import XC.Model.C25_KeyMat
 namespace XC.C25
 
 def totalLen (ps : List Bytes) : Nat := ps.foldl (fun a p => a + p.length + 64) 64
@@ -76,10 +77,17 @@ def handlePrim (o : Op) : String :=
     | _, _, _, _ => "bad-op"
   | _ => "bad-op"
 
+/-- `km hash=sha1|sha256|sha512 n=<len> tag=<hex> k=<hex> h=<hex> sid=<hex>`: generateKeyMaterial -/
+def handleKm (o : Op) : String :=
+  match Prim.algByName (o.str "hash"), o.nat? "n", hexArg o "tag", hexArg o "k", hexArg o "h", hexArg o "sid" with
+  | some a, some n, some tag, some k, some h, some sid => toHex (keyMat a.hash k h tag sid n)
+  | _, _, _, _, _, _ => "bad-op"
+
 def handle (line : String) : String :=
   let o := parseOp line
   match o.cmd with
   | "w" => handleW o
+  | "km" => handleKm o
   | "prim" => handlePrim o
   | _ => "bad-op"
 
